@@ -3,7 +3,7 @@
    configurations carry one fault each: a cancelling or raising callback, a read
    failure, a refused thread start. *)
 From Coq Require Import Lia.
-From Torf Require Import Base Pipeline PipelineProofs FlowProofs PipeExplore PipeExploreProofs PipeConfigs.
+From Torf Require Import Base Pipeline PipelineProofs FlowProofs ThreadProofs PipeExplore PipeExploreProofs PipeConfigs.
 Open Scope Z_scope.
 
 (* the callback cancels from the second piece on (3 pieces): under every schedule the call returns
@@ -43,6 +43,15 @@ Proof.
   unfold zlist_eqb in H. destruct (list_eq_dec Z.eq_dec (sorted_hashes (s_hashes s)) ref); [assumption|discriminate].
 Qed.
 Print Assumptions C04_true_only_with_reference.
+
+(* UNBOUNDED (all schedules, thread counts, sizes, faults, clocks): a call that returned False, raised the
+   callback's exception or a read error, or returned True leaves no worker thread running; the only exception
+   is the RuntimeError of a refused reader / janitor / first hasher (refuted below, known finding) *)
+Theorem C04_no_worker_left_unbounded : forall c s,
+  (1 <= cf_hashers c)%nat -> reach c s -> s_mdone s = true -> s_result s <> Some (ResRuntimeError 1) ->
+  running_threads c s = [].
+Proof. exact no_worker_left. Qed.
+Print Assumptions C04_no_worker_left_unbounded.
 
 (* refuted on the faithful model (known findings): if the start of the janitor or of the first hasher
    is refused, the call raises RuntimeError while the reader (and hashers) keep running *)
